@@ -359,6 +359,21 @@ impl Property for C02 {
         if !r.verdict.is_ok() || r.out != expected {
             return fail("lzma2_decompress", &r);
         }
+        // the same stream through a fragmenting reader into a short-writing sink
+        let h = hash64(&c.chunks);
+        let frag = ReaderKind::Chunky { pattern: vec![1 + (h % 11) as usize, 1 + ((h >> 9) % 300) as usize], stops: vec![] };
+        let short = Io {
+            sink: crate::iowrap::SinkCfg { max_per_write: vec![1 + ((h >> 20) % 7) as usize, 4096], ..Default::default() },
+            ..Default::default()
+        };
+        if expected.len() <= 200_000 {
+            st.eval();
+            st.class("also: fragmenting reader + short-writing sink");
+            let r = sut::lzma2_decompress(&enc.bytes, &frag, &short);
+            if !r.verdict.is_ok() || r.out != expected {
+                return fail("lzma2_decompress(fragmenting reader, short-writing sink)", &r);
+            }
+        }
         st.eval();
         let r = sut::raw_lzma2(&enc.bytes, &ReaderKind::Slice, &Io::default());
         if !r.verdict.is_ok() || r.out != expected {
